@@ -231,10 +231,21 @@ type Pool struct {
 	New   func() any
 	items []any
 	mu    sync.Mutex
+	epoch uint64
+}
+
+// pooled objects never survive into the next execution (a pooled timer of a
+// finished execution belongs to a dead scheduler).
+func (p *Pool) sync() {
+	if e := execEpoch; p.epoch != e {
+		p.epoch = e
+		p.items = nil
+	}
 }
 
 func (p *Pool) Get() any {
 	p.mu.Lock()
+	p.sync()
 	if n := len(p.items); n > 0 {
 		v := p.items[n-1]
 		p.items = p.items[:n-1]
@@ -253,6 +264,7 @@ func (p *Pool) Put(v any) {
 		return
 	}
 	p.mu.Lock()
+	p.sync()
 	if len(p.items) < 64 {
 		p.items = append(p.items, v)
 	}
